@@ -103,8 +103,6 @@ class _Ref:
         self.cbs = [[] for _ in range(ND)]
         self.chained = [None] * ND
         self.trace = []
-        self.stack = []                 # Deferreds whose callbacks are being run right now
-        self.stalls = False             # see EXCLUDE / KNOWN finding below
 
     def add(self, i, ok, err):
         self.cbs[i].append(("U", ok, err))
@@ -134,13 +132,6 @@ class _Ref:
         if self.paused[i]:
             return
         self.chained[i] = None
-        self.stack.append(i)
-        try:
-            self.run1(i)
-        finally:
-            self.stack.pop()
-
-    def run1(self, i):
         while self.cbs[i]:
             e = self.cbs[i].pop(0)
             if e[0] == "C":
@@ -149,8 +140,6 @@ class _Ref:
                 self.res[k] = self.res[i]
                 self.res[i] = ("N", 0)
                 self.paused[k] -= 1
-                if self.paused[k] and any(self.cbs[x] for x in self.stack):
-                    self.stalls = True
                 self.run(k)
                 continue
             fn = e[2] if self.res[i][0] == "F" else e[1]
@@ -266,7 +255,7 @@ class _World:
 
     def step(self, i, op):
         """run op number i on the reference interpreter, then on the real Deferreds.
-        True/False: they agree / disagree afterwards; None: the program is excluded at this op."""
+        True/False: they agree / disagree afterwards; None: the program is invalid at this op."""
         t = op % 3
         a = op // 3
         r = self.ref
@@ -290,8 +279,6 @@ class _World:
             else:
                 r.add(t, ok, (i, 1))
         except _Invalid:
-            return None
-        if r.stalls and _SKIP["stall"]:
             return None
         if a == 0:
             d.callback(self.v + i)
@@ -386,7 +373,7 @@ def _go(v, nops, sops, bs, acts, prefix=(), fixed=()):
                     return True             # outside the precondition
             r = w.step(i, ops[i])
             if r is None:
-                return True                 # invalid (or known-finding) program: outside the precondition
+                return True                 # invalid program: outside the precondition
             if not r:
                 return False
         cover()
@@ -435,60 +422,6 @@ def scenario(sc: int, v: int, ops: T6, bs: T14) -> bool:
     return _go(v, B['k'], ops, bs, CBS, pre, fixed.items())
 
 
-def _stalls(prefix, fixed, nops, ops, bs, acts):
-    """reference interpreter only: does the program reach the known-finding situation?"""
-    w = _World(0, bs, fixed)
-    w.ds = None
-    r = w.ref
-    allops = list(prefix)
-    for o in ops[:nops]:
-        c = min(max(o, 0), 3 * len(acts) - 1)
-        allops.append(3 * acts[c // 3] + c % 3)
-    try:
-        for i, op in enumerate(allops):
-            t, a = op % 3, op // 3
-            if a < 2:
-                r.fire(t, ("I", i) if a == 0 else ("F", 200 + i))
-            elif a == 2:
-                r.pause(t)
-            elif a == 3:
-                r.unpause(t)
-            else:
-                r.add(t, (i, 0) if a != 5 else None, None if a == 4 else ((i, 1) if a == 7 else (i, 0)))
-            if r.stalls:
-                return True
-    except _Invalid:
-        pass
-    return False
-
-
-# ---- known finding (open): a fired, unpaused Deferred can be left with callbacks that never run ----
-# d0's callback returned d1; d0 is paused by the user as well; d1 has a callback X after the
-# continuation; d1 fires: _runCallbacks hands the result to d0, finds d0 still paused and *returns*,
-# abandoning the rest of d1's callbacks (X runs only if somebody touches d1 again).
-_SKIP = {"stall": False}
-KEY_STALL = "callbacks-stall-behind-paused-waiter"
-
-
-def _skip_stall():
-    # used as an extra precondition when the finding is listed as open in KNOWN_FINDINGS.json:
-    # programs in which the reference interpreter meets that situation are then excluded
-    _SKIP["stall"] = True
-    return True
-
-
-EXCLUDE = {KEY_STALL: {"program": "_skip_stall()", "program_cbs": "_skip_stall()", "scenario": "_skip_stall()"}}
-
-
-def classify(harness_name, args):
-    if harness_name == "scenario":
-        pre, fixed = SCEN[args["sc"]]
-        return KEY_STALL if _stalls(pre, fixed.items(), B['k'], args["ops"], args["bs"], CBS) else None
-    if harness_name == "program":
-        return KEY_STALL if _stalls((), (), B['n'], args["ops"], args["bs"], FULL) else None
-    return KEY_STALL if _stalls((), (), B['m'], args["ops"], args["bs"], CBS) else None
-
-
 _Z = (0,) * 14
 VECTORS = {
     # d0.addCallbacks(f->d1); d0.callback; d1.callback: classic chaining on an unfired Deferred
@@ -501,7 +434,9 @@ VECTORS = {
     "program_cbs": [(7, (6, 0, 13, 1, 0, 0), (0, 0, 0, 0, 3) + _Z[5:]),
                     # already fired inner Deferred: result is taken at once
                     (7, (0, 13, 1, 6, 0, 0), (0, 0, 3) + _Z[3:])],
-    "scenario": [(k, 1, (13, 2, 0, 0, 0, 0), _Z) for k in range(7)],
+    # (3, ...): d0 waits for d1 and is paused too; d1 gets a callback and fires: that callback must run
+    # (regression vector for the defect fixed in /repo eab5246)
+    "scenario": [(k, 1, (13, 2, 0, 0, 0, 0), _Z) for k in range(7)] + [(3, 0, (13, 1, 0, 0, 0, 0), _Z)],
 }
 
 
@@ -524,19 +459,31 @@ def _first(nacts):
     return sh, rest
 
 
-def _shards(nacts, depth):
-    """first op as above; ops 1..depth-1 split by action index"""
+def _shards(nacts, depth, heavy=()):
+    """first op as above; ops 1..depth-1 split by action index; prefixes whose action indexes are listed
+    in `heavy` are split once more (load balancing only: the union is the same set of programs)"""
     size = 3 * nacts
     sh, rest = _first(nacts)
+    firsts = [ai for ai in range(nacts) if ai != 3]
+    sh = [(x, (ai,)) for x, ai in zip(sh, firsts)]                   # (conditions, action indexes so far)
     for k in range(1, depth):
-        sh = [x + (_bucket(k, 3 * ai, 3 * ai + 3, size),) for x in sh for ai in range(nacts)]
-    return sh + [(rest,)]
+        sh = [(x + (_bucket(k, 3 * ai, 3 * ai + 3, size),), p + (ai,)) for x, p in sh for ai in range(nacts)]
+    out = []
+    for x, p in sh:
+        if p in heavy:
+            out += [x + (_bucket(depth, 3 * ai, 3 * ai + 3, size),) for ai in range(nacts)]
+        else:
+            out.append(x)
+    return out + [(rest,)]
+
+
+_HEAVY = ((0, 4), (1, 4), (4, 0), (4, 1), (4, 4))    # add-first or add-second histories (CBS action indexes)
 
 
 HARNESSES = [
     H(program, shards=lambda tier: _shards(8, 1 if tier == "quick" else 2),
       timeout={"quick": 90, "thorough": 900}),
-    H(program_cbs, shards=lambda tier: _shards(5, 2 if tier == "quick" else 3),
+    H(program_cbs, shards=lambda tier: _shards(5, 2, _HEAVY) if tier == "quick" else _shards(5, 3),
       timeout={"quick": 90, "thorough": 900}),
     H(scenario, shards=lambda tier: [("sc == %d" % k,) + ((_bucket(0, 3 * ai, 3 * ai + 3, 15),) if tier != "quick" else ())
                                      for k in range(len(SCEN)) for ai in (range(5) if tier != "quick" else (0,))],
